@@ -87,3 +87,25 @@ Definition memo_case : Type := bool * list mop * list bool.
 Definition memo_model (c : memo_case) : list bool :=
   let '(d, ops, _) := c in snd (mrun (fun _ => d) [] ops).
 Definition check_memo (c : memo_case) : bool := beq (memo_model c) (snd c).
+
+(** history case: a node with a configured fee velocity spec (the harness's record of the
+    configuration, not read from the node), then on-chain requests (check, and sign iff accepted),
+    node-entry writes and restarts.
+    ((rules, policy, interval type, limit), operations, per operation (check code or 0, control in memory)) *)
+Definition hist_case : Type :=
+  (list CommitmentPolicy.rule * opolicy * itype * N) * list oop * list (N * vcobs).
+Fixpoint otrace (warn : otag -> bool) (pol : opolicy) (it : itype) (lim : N) (s : nodevc) (ops : list oop)
+  : list (N * vcobs) :=
+  match ops with
+  | [] => []
+  | o :: r =>
+      let '(s1, _) := ostep warn pol it lim s o in
+      (match o with
+       | OTx now nc => fst (cres_obs (fst (check_onchain warn pol (mem s) now nc)))
+       | _ => 0
+       end, obs_of (mem s1)) :: otrace warn pol it lim s1 r
+  end.
+Definition hist_model (c : hist_case) : list (N * vcobs) :=
+  let '((rules, pol, it, lim), ops, _) := c in
+  otrace (owarn_of rules) pol it lim (vinit it lim) ops.
+Definition check_hist (c : hist_case) : bool := beq (hist_model c) (snd c).
